@@ -366,3 +366,42 @@ def r11(ctx):
 
 
 RULES.append(("C07.R11", "T8-namesake", "constructor arguments read from configuration are the parameter's namesake (no same-typed sibling swapped in)", r11))
+
+
+def r12(ctx):
+    """'broadcasts unanswered' and reported as broadcasts: in Layer::process_header the broadcast mode derived from the destination
+    address is a value that is only READ until the FrameInfo is built - no Option::take / replace / insert on it, no second
+    assignment: a frame that loses it is handed to the session as unicast (answered, never flagged in IIN1.0)."""
+    prog = ctx.prog
+    bd = prog.body("link::layer::Layer::process_header")
+    sym = ctx.sym(bd)
+    bl = set(bd.local_by_name("broadcast"))
+    if not bl:
+        raise AnchorError("process_header: no `broadcast` local")
+    muts = []
+    for c in bd.calls():
+        cal = c.term.callee or c.term.declared or ""
+        if not re.search(r"option::Option(<.*>)?::(take|replace|take_if|insert|get_or_insert|get_or_insert_with|as_mut)$", cal) or not c.term.args or c.term.args[0].is_const():
+            continue
+        # receiver: &mut <local>
+        cur = c.term.args[0].place.local
+        for _ in range(4):
+            if cur in bl:
+                muts.append(c)
+                break
+            ds = bd.defs.get(cur, [])
+            if len(ds) != 1 or ds[0][1] == "term":
+                break
+            rv = bd.blocks[ds[0][0]].stmts[ds[0][1]].rv
+            if rv["k"] in ("ref", "rawptr"):
+                cur = rv["p"].local
+            elif rv["k"] == "use" and not rv["a"].is_const():
+                cur = rv["a"].place.local
+            else:
+                break
+    ctx.check(not muts, "process_header:broadcast-read-only", "the broadcast mode is never consumed or rewritten in process_header", bd.where(muts[0].idx) if muts else bd.where(line=bd.line), bad_detail="process_header calls %s on `broadcast`: the FrameInfo built afterwards no longer says the frame was a broadcast" % short((muts[0].term.callee or "")) if muts else "")
+    fi = [b for b, si, st in agg_sites(bd, r"link::layer::FrameInfo$|FrameInfo$")] + [c for c in call_sites(bd, r"FrameInfo::new$")]
+    ctx.check(bool(fi), "process_header:frameinfo-sites", "FrameInfo construction sites found (%d)" % len(fi), bd.where(line=bd.line))
+
+
+RULES.append(("C07.R12", "T5", "the broadcast mode derived from the destination address reaches the FrameInfo unchanged", r12))
